@@ -342,7 +342,8 @@ func (c *Coordinator) alleviateShardHeadSeries(s *shardInfo, changeAbleShards []
 			continue
 		}
 
-		if tar.Series > c.option.MaxHeadSeries {
+		// a target that exceeds any limit can not be transferred to any shard
+		if c.isTooBig(tar) {
 			c.log.Warnf("too big series [%d] series is [%d], skip alleviate", hash, tar.Series)
 			return 0
 		}
@@ -388,7 +389,8 @@ func (c *Coordinator) alleviateShardProcessSeries(s *shardInfo, changeAbleShards
 			continue
 		}
 
-		if tar.TotalSeries > c.option.MaxProcessSeries {
+		// a target that exceeds any limit can not be transferred to any shard
+		if c.isTooBig(tar) {
 			c.log.Warnf("too big series [%d] series is [%d], skip alleviate", hash, tar.Series)
 			return 0
 		}
